@@ -33,11 +33,12 @@ def hasVersionKey : Json → Bool
   | .obj kvs => (get "version" kvs).isSome
   | _ => false
 
-/-- a document without a `version` key counts as version 1 (`the_dict.get("version", 1)`) -/
+/-- a document without a `version` key counts as version 1 (`the_dict.get("version", 1)`), and so does `True` -/
 def effectiveVersion : Json → Option Int
   | .obj kvs => match get "version" kvs with
     | none => some 1
     | some (.int i) => some i
+    | some (.bool true) => some 1     -- a bool is an int in Python: `True` is version 1
     | _ => none
   | _ => none
 
